@@ -269,6 +269,15 @@ func (x *run) cacheChecks(rs *repState, final bool) {
 		x.detailPrefix = fmt.Sprintf("after a close that discarded uncommitted operations of %v: ", ids)
 		defer func() { x.detailPrefix = "" }()
 	}
+	if len(rs.discardedIdent) > 0 && x.detailPrefix == "" {
+		var ids []string
+		for id := range rs.discardedIdent {
+			ids = append(ids, id[:7])
+		}
+		sort.Strings(ids)
+		x.detailPrefix = fmt.Sprintf("after a close that discarded an uncommitted version of identity %v: ", ids)
+		defer func() { x.detailPrefix = "" }()
+	}
 	views, byId, people := x.referenceViews(rs)
 	nothingStaged := len(rs.staged) == 0
 	qs := x.querySet(views, people, sim.Mix(x.p.RunSeed, uint64(x.step)+5))
